@@ -167,6 +167,14 @@ def run(chk, failed):
                 "non-trivial = the request reaches a /v3 handler with at least one path parameter and a typed backend, or a "
                 "storage-backed case with at least one live group; distinct by the case line")
     impl, model, mism = chk.differential(*PROBE, cases, name="req", project=project)
+    # unrouted requests: outside Http.router_level_possible the model says "U 404" (the NotFound handler) and the codes are
+    # compared; inside it ("U ?") httprouter may answer by itself -- any router-level answer is the router's (trusted), the
+    # oracle below accepts exactly 404 / 301,307,308 + Location / 405 + Allow / OPTIONS 200 + Allow
+    mism = [x for x in mism if not (x[3].strip() == "U ?" and x[2].startswith("U "))]
+    for a, b in zip(impl, model):
+        if b.startswith("U"):
+            chk.count("unrouted:" + ("outside the router's region (404 tied)" if b.strip() == "U 404" else
+                                     "inside the router's region, answered %s" % (a.split()[1] if a.startswith("U ") else a.split()[0])))
     bad = []
     for i, (c, m, a) in enumerate(zip(cases, metas, impl)):
         verdict, why = judge(c, m, a)
@@ -296,7 +304,10 @@ def run(chk, failed):
         "an earlier reachable state' (C05), not modelled here",
         "the evaluator turns an evaluator request into StorageFetchConsumer for the same pair (evaluator/caching.go); checked at run time by the "
         "storage-backed cases, not by a table",
-        "viper lookup as modelled: keys lower-cased (ASCII), '.'-separated descent through nested maps; configuration keys contain no '.', no U+212A/U+0130",
+        "viper lookup as modelled: '.'-separated descent through nested maps; configuration KEYS are ASCII without '.'; URL-supplied names are "
+        "lower-cased as Go does (Http.go_lower: A-Z, U+212A -> k, U+0130 -> i)",
+        "for a request that matches no registration httprouter's own choice (redirect / 405 / OPTIONS / NotFound) is a trusted function; it is "
+        "constrained, and compared on every unrouted case, by Http.router_level_possible (outside that region: NotFound, 404)",
         "notifier detail: a configured notifier has one of the four class names (enforced at start-up by the notifier coordinator, C19)",
     ]
     chk.trusted += ["httprouter matching/redirects/405/OPTIONS; viper lookup semantics as modelled; encoding/json; "
